@@ -14,6 +14,7 @@ from __future__ import annotations
 import dataclasses
 import inspect
 import itertools
+import warnings
 
 from vlib import classgen as cg
 from vlib import sched as vsched
@@ -79,6 +80,20 @@ class P(M):
 @spec_class(bootstrap=BOOT)
 class S(M):         # ... its subclass has one again
     z: int = 2
+''',
+    "two_lazy_parents": '''
+from spec_classes import spec_class, Attr
+
+@spec_class(bootstrap=BOOT)
+class M:
+    a: int = Attr(default=1)
+
+@spec_class(bootstrap=BOOT)
+class H:
+    b: int = Attr(default=2)
+
+class P(M, H):      # first used through P: both parents have to be bootstrapped
+    pass
 ''',
     "plain_lazy_chain": '''
 from spec_classes import spec_class, Attr
@@ -280,6 +295,9 @@ def _describe_class(cls):
             d["helper_result"] = repr(res)
     except Exception as e:
         d["fresh_repr"] = f"raises {type(e).__name__}: {e}"
+    # class-level values of everything annotated anywhere along the MRO (attributes of *other* spec-class bases included),
+    # once the class has been instantiated (which is what bootstraps every lazily decorated base)
+    d["annotated_class_values"] = {n: safe_repr(getattr(cls, n, "<none>"), 60) for base in cls.__mro__ for n in getattr(base, "__annotations__", {}) if not n.startswith("_")}
     return d
 
 
@@ -402,6 +420,7 @@ def run(ctx, params):
 
         def judge_in(ns, directives, first, skind, pct=None):
             fns = [trigger_fn(ns, t, c) for t, c in plan]
+            filters_before = list(warnings.filters)
             r = S.run(fns, directives=directives, first=first, pct=pct, watchdog=30.0)
             ctx.count("schedules_run")
             if r.timed_out:
@@ -438,6 +457,12 @@ def run(ctx, params):
                     ctx.violation("thread_outcome_equals_eager", f"[{shape}] thread {i} ({plan[i][0]} {plan[i][1]}) under schedule {details['schedule']}: observed {safe_repr(diff, 260)} (lazy, eager)",
                                   features=dict(feats, failing_trigger=trig_label(plan[i], names)), case=case, **details)
                     return r
+            if list(warnings.filters) != filters_before:
+                extra_f = [f for f in warnings.filters if f not in filters_before]
+                ctx.violation("process_warning_filters_restored", f"[{shape}] after schedule {details['schedule']} warnings.filters differs from what it was before the threads ran: added {safe_repr(extra_f, 120)}",
+                              features=dict(feats, added=len(extra_f)), case=case, **details)
+                warnings.filters[:] = filters_before
+                return r
             call_sig_diffs = []
             for n in names:
                 ctx.count("class_descriptions_compared")
@@ -531,7 +556,7 @@ def run(ctx, params):
 
 
 def plan(tier, seed):
-    kinds = ["gen", "new_defined", "plain_lazy_chain", "nested_type", "gen", "lazy_parent", "sub_defines_new", "diamond_new", "diamond_post_init", "no_init"]
+    kinds = ["gen", "new_defined", "plain_lazy_chain", "nested_type", "gen", "lazy_parent", "sub_defines_new", "diamond_new", "diamond_post_init", "no_init", "two_lazy_parents"]
     if tier == "quick":
-        return [{"shard": i, "sources": 2, "kinds": kinds[i % 10 :] + kinds[: i % 10], "single": 40, "double": 30, "priority_double": 160, "pct": 10, "threads": 3 if i % 4 == 3 else 2} for i in range(16)]
-    return [{"shard": i, "sources": 3, "kinds": kinds[i % 10 :] + kinds[: i % 10], "single": "all", "double": 200, "pct": 60, "threads": 3 if i % 4 == 3 else 2} for i in range(32)]
+        return [{"shard": i, "sources": 2, "kinds": kinds[i % 11 :] + kinds[: i % 11], "single": 40, "double": 30, "priority_double": 160, "pct": 10, "threads": 3 if i % 4 == 3 else 2} for i in range(16)]
+    return [{"shard": i, "sources": 3, "kinds": kinds[i % 11 :] + kinds[: i % 11], "single": "all", "double": 200, "pct": 60, "threads": 3 if i % 4 == 3 else 2} for i in range(32)]
